@@ -99,6 +99,37 @@ theorem inv_step (S : List Nat) (hS : SufOK S) (t10 : Nat) (order : List String 
               simp only [List.contains_iff_mem, List.mem_map]
               obtain ⟨v, hv, rfl⟩ := List.mem_map.mp ha
               exact ⟨v, hv, rfl⟩
+  | voteSF signer fact =>
+    simp only [step]
+    split
+    · exact h
+    · split
+      · exact h
+      · split
+        · exact h
+        · rename_i hfin hvoted hkey
+          simp only [Bool.true_and, Bool.not_eq_true', Bool.not_eq_false] at hkey
+          have hmem : signer ∈ S := by simpa [List.contains_iff_mem] using hkey
+          apply inv_count
+          obtain ⟨h1, h2, h3, h4, h5⟩ := h
+          refine ⟨?_, ?_, h3, h4, h5⟩
+          · intro v hv
+            simp only [List.mem_append, List.mem_singleton] at hv
+            rcases hv with hv | hv
+            · exact h1 v hv
+            · subst hv; exact hmem
+          · simp only [List.map_append, List.map_cons, List.map_nil]
+            rw [List.nodup_append]
+            refine ⟨h2, by simp, ?_⟩
+            intro a ha b hb
+            simp only [List.mem_singleton] at hb
+            subst hb
+            intro e
+            subst e
+            apply hvoted
+            simp only [List.contains_iff_mem, List.mem_map]
+            obtain ⟨v, hv, rfl⟩ := List.mem_map.mp ha
+            exact ⟨v, hv, rfl⟩
 
 theorem inv_run (S : List Nat) (hS : SufOK S) (t10 : Nat) (order : List String → List String) (ops : List Op) (r : Rec)
     (h : Inv S t10 order r) : Inv S t10 order (run true S t10 order r ops) := by
